@@ -5,9 +5,10 @@
         -> ok <value> <consumed> | err
    IMP <v0|v1|v1n> <dup 0|1> <module name hex|-> <item name hex|-> <np> t.. <nr> t..   -> true | false
    EXP <v0|v1> <name hex|-> <np> t.. <nr> t..                                          -> true | false *)
+type ostr = string
 open C09_model
 
-exception Bad of string
+exception Bad of ostr
 
 let cap = 70000
 let rec nat_of_int (i : int) : nat = if i <= 0 then O else S (nat_of_int (i - 1))
@@ -21,8 +22,8 @@ let rec pos_of_u64 (x : int64) : positive =
 let z_of_int64 (x : int64) : z =
   if x = 0L then Z0 else if Int64.compare x 0L > 0 then Zpos (pos_of_u64 x) else Zneg (pos_of_u64 (Int64.neg x))
 let n_of_int64 (x : int64) : n = if x = 0L then N0 else Npos (pos_of_u64 x)
-let z_of_string (s : string) : z = z_of_int64 (Int64.of_string s)
-let n_of_string (s : string) : n = n_of_int64 (Int64.of_string s)
+let z_of_string (s : ostr) : z = z_of_int64 (Int64.of_string s)
+let n_of_string (s : ostr) : n = n_of_int64 (Int64.of_string s)
 let n_of_int (i : int) : n = n_of_int64 (Int64.of_int i)
 let rec u64_of_pos (p : positive) : int64 =
   match p with
@@ -32,7 +33,7 @@ let rec u64_of_pos (p : positive) : int64 =
 let int64_of_z (x : z) : int64 = match x with Z0 -> 0L | Zpos p -> u64_of_pos p | Zneg p -> Int64.neg (u64_of_pos p)
 let int64_of_n (x : n) : int64 = match x with N0 -> 0L | Npos p -> u64_of_pos p
 
-type rd = { toks : string array; mutable pos : int }
+type rd = { toks : ostr array; mutable pos : int }
 let next r = if r.pos >= Array.length r.toks then raise (Bad "eof") else (let t = r.toks.(r.pos) in r.pos <- r.pos + 1; t)
 let num r = int_of_string (next r)
 let expect r s = let t = next r in if t <> s then raise (Bad ("expected " ^ s ^ " got " ^ t))
@@ -41,9 +42,9 @@ let bt_of s = match s with "40" -> None | _ -> Some (vt_of s)
 let rec times k f = if k <= 0 then [] else (let x = f () in x :: times (k - 1) f)
 
 (* indices are u32 in the line format; anything above [cap] is out of range for every list *)
-let idx (s : string) : nat = nat_capped (try int_of_string s with _ -> cap)
+let idx (s : ostr) : nat = nat_capped (try int_of_string s with _ -> cap)
 
-let vop_of_tok (tok : string) : (opcode * n) =
+let vop_of_tok (tok : ostr) : (opcode * n) =
   match String.split_on_char ':' tok with
   | [] -> raise (Bad "empty op")
   | b :: imm ->
@@ -80,8 +81,8 @@ let vop_of_tok (tok : string) : (opcode * n) =
             | Some x -> (OBasic x, N0)
             | None -> raise (Bad ("op " ^ tok))))
 
-let names : (string, int) Hashtbl.t = Hashtbl.create 64
-let intern (s : string) : n =
+let names : (ostr, int) Hashtbl.t = Hashtbl.create 64
+let intern (s : ostr) : n =
   match Hashtbl.find_opt names s with
   | Some i -> n_of_int i
   | None -> let i = Hashtbl.length names in Hashtbl.add names s i; n_of_int i
@@ -143,7 +144,7 @@ let parse_module (r : rd) : vmodule =
   { vm_types = types; vm_imports = imports; vm_funcs = fs; vm_table = table; vm_mem = mem;
     vm_globals = globals; vm_exports = exports; vm_elems = elems; vm_data = data }
 
-let fn_result (m : vmodule) (f : mfunc) : string =
+let fn_result (m : vmodule) (f : mfunc) : ostr =
   match List.nth_opt m.vm_types (int_of_nat f.mf_type) with
   | None -> "notype"
   | Some ft ->
@@ -155,7 +156,7 @@ let fn_result (m : vmodule) (f : mfunc) : string =
             | Some h -> Printf.sprintf "ok:%d:%d" (int_of_nat h) (if ends_early c f.mf_body then 1 else 0)
             | None -> "err"))
 
-let do_mod (r : rd) : string =
+let do_mod (r : rd) : ostr =
   let m = parse_module r in
   let v b = if validate_module b m then "ok" else "err" in
   let mem = match artifact_memory m with
@@ -163,10 +164,10 @@ let do_mod (r : rd) : string =
     | None -> "none" in
   Printf.sprintf "v0=%s v1=%s mem=%s fn=%s" (v false) (v true) mem (String.concat "," (List.map (fn_result m) m.vm_funcs))
 
-let bytes_of_hex (s : string) : n list =
+let bytes_of_hex (s : ostr) : n list =
   List.init (String.length s / 2) (fun i -> n_of_int (int_of_string ("0x" ^ String.sub s (2 * i) 2)))
 
-let do_leb (r : rd) : string =
+let do_leb (r : rd) : ostr =
   let k = next r in
   let bs = if r.pos < Array.length r.toks then bytes_of_hex (next r) else [] in
   let total = List.length bs in
@@ -185,18 +186,18 @@ let ascii_of_char (c : char) : ascii =
   let n = Char.code c in
   let b i = (n lsr i) land 1 = 1 in
   Ascii (b 0, b 1, b 2, b 3, b 4, b 5, b 6, b 7)
-let coq_string (s : string) : string0 =
+let coq_string (s : ostr) : C09_model.string =
   let rec go i = if i >= String.length s then EmptyString else String (ascii_of_char s.[i], go (i + 1)) in go 0
-let str_of_hex (h : string) : string =
+let str_of_hex (h : ostr) : ostr =
   String.init (String.length h / 2) (fun i -> Char.chr (int_of_string ("0x" ^ String.sub h (2 * i) 2)))
-let hexarg (t : string) : string = if t = "-" then "" else str_of_hex t
+let hexarg (t : ostr) : ostr = if t = "-" then "" else str_of_hex t
 let read_ft (r : rd) : functype =
   let np = num r in
   let ps = times np (fun () -> vt_of (next r)) in
   let nr = num r in
   let res = if nr = 1 then Some (vt_of (next r)) else None in
   { ft_params = ps; ft_result = res }
-let do_imp (r : rd) : string =
+let do_imp (r : rd) : ostr =
   let v = next r in
   let dup = num r = 1 in
   let md = coq_string (hexarg (next r)) in
@@ -207,7 +208,7 @@ let do_imp (r : rd) : string =
     | "v1" -> import_ok_v1 true false dup md nm ft
     | _ -> import_ok_v1 false false dup md nm ft in
   if b then "true" else "false"
-let do_exp (r : rd) : string =
+let do_exp (r : rd) : ostr =
   let v = next r in
   let nm = coq_string (hexarg (next r)) in
   let ft = read_ft r in
